@@ -206,6 +206,10 @@ func (u *controlUnit) shouldUseForwarding(runner *risc.InstructionRunnerPc, haza
 	}
 
 	// Can we use forwarding with an instruction pushed in the previous cycle
+	// Several runners pushed in the previous cycle may write the same register
+	// (renaming); the value to forward is the one of the latest in program order.
+	var latest *risc.InstructionRunnerPc
+	var latestRegister risc.RegisterType
 	for previousRunner := range u.pushedRunnersInPreviousCycle {
 		for _, writeRegister := range previousRunner.Runner.WriteRegisters() {
 			for _, readRegister := range runner.Runner.ReadRegisters() {
@@ -213,10 +217,16 @@ func (u *controlUnit) shouldUseForwarding(runner *risc.InstructionRunnerPc, haza
 					continue
 				}
 				if readRegister == writeRegister {
-					return true, previousRunner, readRegister
+					if latest == nil || previousRunner.SequenceID > latest.SequenceID {
+						latest = previousRunner
+						latestRegister = readRegister
+					}
 				}
 			}
 		}
+	}
+	if latest != nil {
+		return true, latest, latestRegister
 	}
 	return false, nil, risc.Zero
 }
